@@ -62,7 +62,7 @@ OverlapClasses == DisposedClasses \cup {"ctorError", "resolution"}
 \* ---- call ---------------------------------------------------------------------------------
 ApplyCall2(e) ==
     LET tgt == ScopeOfTarget(e.sc)
-        rec == [op |-> e.op, sc |-> e.sc, name |-> e.name, t |-> e.t, k |-> e.k, line |-> l, nerr |-> 0, nself |-> 0, lost |-> FALSE,
+        rec == [op |-> e.op, sc |-> e.sc, name |-> e.name, t |-> e.t, k |-> e.k, line |-> l, nerr |-> 0, nself |-> 0, lost |-> FALSE, faulted |-> FALSE,
                 mustRefuse |-> IF e.op \in {"resolve", "group", "create"}
                                THEN (IF e.sc = "prov" THEN cs.pclosed \/ cs.plost ELSE IsClosed(tgt)) ELSE FALSE,
                 wasClosed |-> IF e.op = "closeprov" THEN cs.pclosing > 0
@@ -129,7 +129,9 @@ ApplyCtor2(e) ==
                                    th |-> e.th, born |-> l, ready |-> 0, returned |-> FALSE, closed |-> 0, closedAt |-> 0, discarded |-> FALSE, failed |-> FALSE,
                                    deps |-> UNION {Range(e.args[j].ids) : j \in DOMAIN e.args}]]
         usedTr == {j \in UNION {Range(e.args[b].ids) : b \in DOMAIN e.args} : j \in Ids /\ cs.inst[j].life = "transient"}
-    IN [cs EXCEPT !.inst = recs @@ @, !.handed = @ \cup usedTr]
+    IN [cs EXCEPT !.inst = recs @@ @, !.handed = @ \cup usedTr,
+                  \* a scripted constructor failure inside a call: that call may report it
+                  !.curs = IF e.outcome # "ok" /\ e.th \in DOMAIN @ THEN [@ EXCEPT ![e.th] = [@ EXCEPT !.faulted = TRUE]] ELSE @]
 
 \* ---- close --------------------------------------------------------------------------------
 IsDiscard(e) == e.inst \in Ids /\ cs.inst[e.inst].th = e.th /\ cs.inst[e.inst].ready = 0 /\ ~cs.inst[e.inst].returned
@@ -190,6 +192,7 @@ GuardsRet2(e) ==
         {CG("refused_after_close", {"C13"}, c.mustRefuse => (err \cap DisposedClasses # {})),
          CG("only_documented_errors", {"C09", "C13"}, err # {} =>
                \/ (c.op = "resolve" /\ ~HasProvider(cs.cfg, c.t, c.k) /\ "notfound" \in err)   \* e.g. a removed output
+               \/ (c.faulted /\ err \cap {"ctorError", "ctorPanic"} # {})                        \* a scripted constructor failure
                \/ /\ err \cap DisposedClasses # {} /\ err \subseteq OverlapClasses
                   /\ (IF c.sc = "prov" THEN cs.pclosing > 0 ELSE (tgt \in SNames /\ IsClosing(tgt)))),
          CG("failed_call_returns_nothing", {"C13", "C15"}, err # {} => e.res.k = "none")}
